@@ -98,7 +98,12 @@ def lock_protocol(chk, tier, wd, exe):
     mtrace = os.path.join(wd, "mutex.ndjson")
     p = subprocess.run([exe, "mutex", "6" if tier == "quick" else "30", mtrace], capture_output=True, text=True, timeout=900)
     if p.returncode != 0 or not os.path.exists(mtrace):
-        chk.violation("mutex:crash", "the lock-protocol scenario died (rc=%s): %s" % (p.returncode, p.stderr[-1500:]), dict(kind="mutex"))
+        chk.violation("mutex:crash", "the lock-protocol scenario died or did not finish (rc=%s; 3 = its watchdog: a thread waited for the lock "
+                      "beyond every forced unlock): %s" % (p.returncode, p.stderr[-1500:]), dict(kind="mutex"))
+        # a scenario that spins until its watchdog logs every failed attempt: gigabytes; keep the head only
+        if os.path.exists(mtrace) and os.path.getsize(mtrace) > 50 * 1024 * 1024:
+            with open(mtrace, "rb") as f: headbytes = f.read(200000)
+            with open(mtrace, "wb") as f: f.write(headbytes[:headbytes.rfind(b"\n") + 1])
     else:
         cfg = os.path.join(wd, "mutextrace.cfg")
         vf.write_cfg(cfg, constants=dict(Threads={1, 2}, MaxSpin=spin, MaxDepth=2, Recursive=True), init="TInit", next_="TNext",
